@@ -674,4 +674,24 @@ theorem nextMessageId_eq (c : Nat) :
   | simp [Codec.nextMessageId]
 
 
+/-! ### HumidityResponse._parse -/
+/-- **tie.** `HumidityResponse._parse` as translated = the model's, for every payload (IndexError below 5 bytes). -/
+theorem parseHumidity_eq (p : Bytes) :
+    Codec.parseHumidity p = (Model.parseHumidity p).map (fun o => o.map (fun n => (n : Int))) := by
+  first
+  | (
+       unfold Codec.parseHumidity Model.parseHumidity
+       rw [Py.idxI_eq]
+       unfold Py.idx
+       cases p[4]? with
+       | none => rfl
+       | some x =>
+         simp only [Except.map, bind, Except.bind, pure, Except.pure]
+         by_cases h : x = 0
+         · subst h; rfl
+         · have hn : ¬ ((0 : Int) = (x.toNat : Int)) := by
+             intro e; apply h; apply UInt8.toNat_inj.mp; simpa using e.symm
+           simp [h, hn])
+  | rfl
+
 end Msmart.CodecEq
